@@ -17,6 +17,7 @@ type BDD struct {
 	vars   map[string]int // source bit -> variable index
 	limit  int
 	over   bool
+	steps  int // ite expansions (bounded: 4x the node limit)
 }
 
 func NewBDD(limit int) *BDD {
@@ -64,9 +65,17 @@ func (b *BDD) iteOp(f, g, h int) int {
 	if g == 1 && h == 0 {
 		return f
 	}
+	if b.over {
+		return 0
+	}
 	k := [3]int{f, g, h}
 	if r, ok := b.ite[k]; ok {
 		return r
+	}
+	b.steps++
+	if b.steps > 4*b.limit {
+		b.over = true
+		return 0
 	}
 	v := b.nodes[f].v
 	if b.nodes[g].v < v {
@@ -93,7 +102,10 @@ func (b *BDD) iteOp(f, g, h int) int {
 
 // declareVars fixes the variable order: sources sorted by (name, bit) so that the bits of one
 // word are adjacent and ascending.
-func (b *BDD) declareVars(roots []*Node) {
+func (b *BDD) declareVars(roots []*Node) { b.declareVarsOrd(roots, false) }
+
+// declareVarsOrd: with interleave the order is (bit, name), which keeps word additions small.
+func (b *BDD) declareVarsOrd(roots []*Node, interleave bool) {
 	seen := map[*Node]bool{}
 	type sv struct {
 		name string
@@ -112,11 +124,17 @@ func (b *BDD) declareVars(roots []*Node) {
 		walk(n.a)
 		walk(n.b)
 		walk(n.c)
+		for _, k := range n.kids {
+			walk(k)
+		}
 	}
 	for _, r := range roots {
 		walk(r)
 	}
 	sort.Slice(vs, func(i, j int) bool {
+		if interleave && vs[i].idx != vs[j].idx {
+			return vs[i].idx < vs[j].idx
+		}
 		if vs[i].name != vs[j].name {
 			return vs[i].name < vs[j].name
 		}
@@ -143,6 +161,17 @@ func (b *BDD) of(n *Node, memo map[*Node]int) (int, bool) {
 		r = b.varNode(srcKey(n.src, n.idx))
 	case opTop:
 		return 0, false
+	case opApp:
+		// uninterpreted: one variable per (table, bit, canonical index functions)
+		key := "app|" + n.src + "|" + itoa(n.idx)
+		for _, c := range n.kids {
+			x, ok := b.of(c, memo)
+			if !ok {
+				return 0, false
+			}
+			key += "|" + itoa(x)
+		}
+		r = b.varNode(key)
 	case opNot:
 		x, ok := b.of(n.a, memo)
 		if !ok {
@@ -201,4 +230,135 @@ func (t *TermTable) EquivBV(x, y BV) bool {
 		}
 	}
 	return true
+}
+
+
+// EquivBV3 decides equality of two words trying both variable orders; decided is false when
+// neither order fits the node budget (or a term is unknown).
+func (t *TermTable) EquivBV3(x, y BV, limit int) (eq, decided bool) {
+	if x.W != y.W {
+		return false, true
+	}
+	same := true
+	for i := range x.B {
+		if x.B[i] != y.B[i] {
+			same = false
+		}
+	}
+	if same {
+		return true, true
+	}
+	var roots []*Node
+	roots = append(roots, x.B...)
+	roots = append(roots, y.B...)
+	for _, r := range roots {
+		if r.op == opTop {
+			return false, false
+		}
+	}
+	for _, inter := range []bool{false, true} {
+		b := NewBDD(limit)
+		b.declareVarsOrd(roots, inter)
+		memo := map[*Node]int{}
+		ok := true
+		eq := true
+		for i := range x.B {
+			bx, ok1 := b.of(x.B[i], memo)
+			by, ok2 := b.of(y.B[i], memo)
+			if !ok1 || !ok2 || b.over {
+				ok = false
+				break
+			}
+			if bx != by {
+				eq = false
+			}
+		}
+		if ok {
+			return eq, true
+		}
+	}
+	return false, false
+}
+
+
+// simDiffer evaluates both words on 256 pseudo-random assignments of the sources (64 at a time,
+// table lookups by a fixed pseudo-random function of the index value).  A difference refutes
+// equivalence; agreement proves nothing and the caller goes on to a complete method.  Returns the
+// lowest differing bit, or -1.
+func (t *TermTable) simDiffer(x, y BV) int {
+	if x.W != y.W {
+		return 0
+	}
+	mix := func(h uint64) uint64 {
+		h ^= h >> 33
+		h *= 0xff51afd7ed558ccd
+		h ^= h >> 33
+		h *= 0xc4ceb9fe1a85ec53
+		h ^= h >> 33
+		return h
+	}
+	hashStr := func(s string) uint64 {
+		h := uint64(1469598103934665603)
+		for i := 0; i < len(s); i++ {
+			h = (h ^ uint64(s[i])) * 1099511628211
+		}
+		return h
+	}
+	for round := uint64(0); round < 4; round++ {
+		memo := map[*Node]uint64{}
+		var ev func(n *Node) uint64
+		ev = func(n *Node) uint64 {
+			if v, ok := memo[n]; ok {
+				return v
+			}
+			var v uint64
+			switch n.op {
+			case opZero:
+				v = 0
+			case opOne:
+				v = ^uint64(0)
+			case opSrc:
+				v = mix(hashStr(n.src) ^ mix(uint64(n.idx)+1) ^ mix(round+77))
+				if round == 3 { // a sparse round: mostly-ones words exercise carries
+					v |= mix(v + 1)
+				}
+			case opTop:
+				v = mix(uint64(n.id) + round)
+			case opNot:
+				v = ^ev(n.a)
+			case opAnd:
+				v = ev(n.a) & ev(n.b)
+			case opOr:
+				v = ev(n.a) | ev(n.b)
+			case opXor:
+				v = ev(n.a) ^ ev(n.b)
+			case opMux:
+				c := ev(n.c)
+				v = (c & ev(n.a)) | (^c & ev(n.b))
+			case opApp:
+				ks := make([]uint64, len(n.kids))
+				for i, k := range n.kids {
+					ks[i] = ev(k)
+				}
+				h0 := hashStr(n.src)
+				for lane := uint(0); lane < 64; lane++ {
+					var idx uint64
+					for i := range ks {
+						idx |= (ks[i] >> lane & 1) << uint(i)
+					}
+					if mix(h0^mix(idx+13)^mix(uint64(n.idx)+5))&1 == 1 {
+						v |= 1 << lane
+					}
+				}
+			}
+			memo[n] = v
+			return v
+		}
+		for i := range x.B {
+			if ev(x.B[i]) != ev(y.B[i]) {
+				return i
+			}
+		}
+	}
+	return -1
 }
